@@ -587,7 +587,11 @@ class Harness:
         T = self.tables["m"]
         tasks, jobs = self._tasks_of("m"), self._jobs_of("m")
         for n, mj in self._window_added:
-            if T.entries.get(n) is mj and n in self._pre_nums and n not in tasks and n not in jobs:
+            # only a job that is still running: one that was registered AND exited inside the window may have
+            # been polled (seen finished) by the interrupted command itself, which then purges it rightly -
+            # the model's purge after the command takes care of that entry
+            if (mj.alive and T.entries.get(n) is mj and n in self._pre_nums and n not in tasks
+                    and n not in jobs):
                 if F2 not in self.tolerate:
                     self._fail("live-job-dropped",
                                "job %d (k%d), registered by another thread while this command was polling, re-used "
